@@ -100,6 +100,27 @@ TRUST = ('Python ast; this analyser (sa/*); hand-transcribed spec tables under s
          'condition rules: a report is a violation of the behaviour, silence is not a proof of it beyond the clauses named.')
 
 
+# rules added in the seventh seeded round (DESIGN 11.22), appended to the technique text of the property that reports them
+ROUND7 = {
+    'C01': 'variant tables: up-front size demand of a member against the shortest sibling',
+    'C02': 'factories that answer with several classes against instance_of validators; partial enum tables subscripted with run-time keys; attributes of the timestamp sentinel',
+    'C03': 'whole-buffer length compared only in tests that raise NotEnoughData / TooMuchData',
+    'C04': 'missing-byte counts subtract a measure of the available input',
+    'C05': 'no strip / case mapping / replace in the composer primitives; JSON valued fields evaluated; replace(tzinfo=) only on tested values',
+    'C06': 'attrs validator methods are rejection sites of the table',
+    'C07': 'language subtag setters evaluated against RFC 3066',
+    'C08': 'compose_bytes / compose_string evaluated around the largest length the prefix holds',
+    'C11': 'transparent string / byte primitives; length-prefixed strings at the largest length; replace(tzinfo=) only on tested values',
+    'C12': 'no vector class redefines the sequence interface or its construction',
+    'C14': 'explicit __eq__ / __hash__ compare attributes as held',
+    'C15': 'vectors read by ja3 keep the order given (no redefinition of construction or sequence methods)',
+    'C16': 'length-prefixed strings decoded unchanged by the primitives; known_hosts evaluated',
+    'C17': 'subclasses of the version class with generated or own __eq__ / __hash__',
+    'C18': 'JSON valued fields: composer evaluated for members that hold false / 0',
+    'C19': 'no loop re-assigns a growing value through a property setter that walks it',
+}
+
+
 def built():
     out = []
     for pid in sorted(P):
@@ -116,6 +137,8 @@ def main():
     checks = []
     for pid in have:
         tech, text = P[pid]
+        if pid in ROUND7:
+            tech = tech + '; ' + ROUND7[pid]
         checks.append({
             'property_id': pid,
             'quick_cmd': 'python3 -m sa.check %s --tier quick' % pid,
